@@ -348,6 +348,11 @@ def _prep_index(self, indx):
             pre_index += [item]
             continue
 
+        # An ellipsis might stand for no axis at all
+        if isinstance(item, type(Ellipsis)):
+            pre_index += [item]
+            continue
+
         axis_length = self._shape_[inloc]
 
         # Handle Qube subclasses
